@@ -304,6 +304,34 @@ func same(c xsel.Cursor, d *spec.Doc, i int, owner xsel.Cursor, id string) bool 
 	return true
 }
 
+// docOrder walks the tree in document order (an element, its namespace
+// nodes, its attributes, its children) and checks that Pos() strictly
+// increases: document order is what node-set sorting and de-duplication use.
+func docOrder(c xsel.Cursor, last *int) bool {
+	if c.Pos() <= *last {
+		return false
+	}
+	*last = c.Pos()
+	for _, x := range c.Namespaces() {
+		if x.Pos() <= *last {
+			return false
+		}
+		*last = x.Pos()
+	}
+	for _, x := range c.Attributes() {
+		if x.Pos() <= *last {
+			return false
+		}
+		*last = x.Pos()
+	}
+	for _, x := range c.Children() {
+		if !docOrder(x, last) {
+			return false
+		}
+	}
+	return true
+}
+
 // RunXML: every token stream within the bound.
 func RunXML() {
 	max := 4
@@ -318,6 +346,10 @@ func RunXML() {
 		nd.Reach("xml.complete")
 		nd.Assert(err == nil, "xml.complete.noerr")
 		nd.Assert(root != nil && same(root, g.d, 0, nil, "xml"), "xml.data-model")
+		if root != nil {
+			last := -1
+			nd.Assert(docOrder(root, &last), "xml.positions-increase-in-document-order")
+		}
 	case 1:
 		nd.Reach("xml.truncated")
 		nd.Assert(err != nil, "xml.truncated.error")
@@ -326,4 +358,59 @@ func RunXML() {
 		nd.Assert(err != nil, "xml.syntax-error.error")
 	}
 	nd.Assert(root != nil || err != nil, "xml.no-nil-nil")
+}
+
+// RunPositions: documents one token longer than RunXML's bound, of the shape
+// <a DECLS><b [xmlns:p=w]/> NEXT <d/></a>: an empty, attribute-less element
+// that only inherits (or redeclares) namespace bindings, followed by further
+// nodes. Positions must strictly increase along the document-order walk.
+func RunPositions() {
+	u, v := symURI(), symURI()
+	var decls []hx.XDecl
+	switch nd.Choice(3) {
+	case 0:
+		decls = []hx.XDecl{{Prefix: "p", URI: u}}
+	case 1:
+		decls = []hx.XDecl{{Prefix: "p", URI: u}, {Prefix: "q", URI: v}}
+	case 2:
+		decls = []hx.XDecl{{Prefix: "", URI: u}, {Prefix: "p", URI: v}}
+	}
+	b := hx.XTok{Kind: hx.XStart, Local: "b"}
+	if nd.Choice(2) == 1 {
+		b.Decls = []hx.XDecl{{Prefix: "p", URI: "w"}}
+	}
+	toks := []hx.XTok{{Kind: hx.XStart, Local: "a", Decls: decls}, b, {Kind: hx.XEnd}}
+	switch nd.Choice(4) {
+	case 0:
+		toks = append(toks, hx.XTok{Kind: hx.XText, Data: symText()})
+	case 1:
+		toks = append(toks, hx.XTok{Kind: hx.XStart, Local: "c"}, hx.XTok{Kind: hx.XEnd})
+	case 2:
+		toks = append(toks, hx.XTok{Kind: hx.XComment, Data: "c"})
+	case 3:
+		toks = append(toks, hx.XTok{Kind: hx.XStart, Local: "c", Attrs: []hx.XRawAttr{{Local: "x", Value: "1"}}}, hx.XTok{Kind: hx.XEnd})
+	}
+	toks = append(toks, hx.XTok{Kind: hx.XStart, Local: "d"}, hx.XTok{Kind: hx.XEnd}, hx.XTok{Kind: hx.XEnd})
+	root, err := xsel.ReadXml(&hx.XMLScript{Toks: toks})
+	nd.Reach("positions")
+	nd.Assert(err == nil && root != nil, "positions.noerr")
+	if root == nil {
+		return
+	}
+	last := -1
+	nd.Assert(docOrder(root, &last), "xml.positions-increase-in-document-order")
+	// every element of the document lists p among its namespace nodes
+	a := root.Children()[0]
+	for _, e := range append([]xsel.Cursor{a}, a.Children()...) {
+		if _, isElem := e.Node().(node.Element); !isElem {
+			continue
+		}
+		found := false
+		for _, n := range e.Namespaces() {
+			if s, ok := n.Node().(node.Namespace); ok && s.Prefix() == "p" {
+				found = true
+			}
+		}
+		nd.Assert(found, "positions.binding-in-scope-on-every-element")
+	}
 }
